@@ -200,6 +200,9 @@ func (gq *Schema) AddImplementation() error {
 //Edited. To check add Types at RunTime..
 //Append Runtime schema to typeMap
 func (gq *Schema) AppendType(objectType Type) error {
+	if isNullish(objectType) {
+		return invariant(false, "Schema cannot be extended with a nil type.")
+	}
 	if objectType.Error() != nil {
 		return objectType.Error()
 	}
@@ -305,7 +308,16 @@ func (gq *Schema) AddExtensions(e ...Extension) {
 // map-reduce
 func typeMapReducer(schema *Schema, typeMap TypeMap, objectType Type) (TypeMap, error) {
 	var err error
-	if objectType == nil || objectType.Name() == "" {
+	if isNullish(objectType) {
+		return typeMap, nil
+	}
+	// a type whose construction failed (an illegal name, an enum without
+	// values, a scalar without Serialize, ...) is reported wherever the schema
+	// references it: inside list / non-null wrappers and as an argument type too
+	if err = objectType.Error(); err != nil {
+		return typeMap, err
+	}
+	if objectType.Name() == "" {
 		return typeMap, nil
 	}
 
